@@ -20,9 +20,11 @@ R4_MISSED = "C12-m7".split()
 R4_TIE = "C02-m8 C04-m8 C12-m8 C15-m8".split()
 R5_MISSED = "C02-m10 C07-m9 C09-m10 C13-m10".split()
 R5_TIE = "C01-m9 C01-m10 C02-m9 C03-m9 C03-m10 C04-m9 C04-m10 C05-m9 C05-m10 C06-m9 C07-m10 C08-m9 C10-m10 C11-m9 C11-m10 C12-m10 C15-m9 C16-m9".split()
-for k in R1_MISSED + R2_MISSED + R3_MISSED + R4_MISSED + R5_MISSED:
+R6_MISSED = "C08-m12".split()
+R6_TIE = "C01-m11 C01-m12 C02-m11 C03-m11 C05-m11 C05-m12 C07-m12 C09-m11 C10-m12 C12-m11 C14-m11 C14-m12 C15-m12 C16-m12".split()
+for k in R1_MISSED + R2_MISSED + R3_MISSED + R4_MISSED + R5_MISSED + R6_MISSED:
     FIRST[k] = "missed"
-for k in R1_TIE + R2_TIE + R3_TIE + R4_TIE + R5_TIE:
+for k in R1_TIE + R2_TIE + R3_TIE + R4_TIE + R5_TIE + R6_TIE:
     FIRST[k] = "tie only"
 
 
